@@ -16,9 +16,11 @@ patch, pids = args[0], args[1:]
 scratch = tempfile.mkdtemp(prefix="vf-seed-", dir="/var/tmp")
 try:
     shutil.copytree("/repo/src", os.path.join(scratch, "src"))
-    r = subprocess.run(["patch", "-p1", "-s", "-i", os.path.abspath(patch)], cwd=scratch, capture_output=True, text=True)
+    first = open(patch).read(4000)
+    strip = "-p1" if ("--- a/" in first or "+++ b/" in first) else "-p0"
+    r = subprocess.run(["patch", strip, "-s", "-i", os.path.abspath(patch)], cwd=scratch, capture_output=True, text=True)
     if r.returncode:
-        print("PATCH FAILED", r.stdout, r.stderr); sys.exit(3)
+        print("PATCH FAILED", (r.stdout + r.stderr).replace("\n", " ")[:300]); sys.exit(3)
     env = dict(os.environ)
     if fams: env["VERIF_FAMILIES"] = fams
     for pid in pids:
